@@ -2,7 +2,7 @@
 // design.postprocess() (records whether it throws the CDC DesignError) and, separately, calls
 // hlim::inferClockDomains / hlim::detectUnguardedCDCCrossings directly on the graph before and after
 // post-processing, dumping the graph structure, the per-port domain map and the flagged nodes.
-// Usage: c12 <seed> <ncases> <statements-per-design>   |   c12 replay <subseed> <statements-per-design>  (one design, as printed in its `case` line)   |   c12 fixed  (hand-written designs)
+// Usage: c12 <seed> <ncases> <statements-per-design>   |   c12 replay <subseed> <statements-per-design>  (one design, as printed in its `case` line)   |   c12 fixed  (hand-written designs)   |   c12 quirk  (see Gen::buildQuirk)
 #include <gatery/pch.h>
 #include <gatery/frontend.h>
 #include <gatery/scl/cdc.h>
@@ -14,6 +14,8 @@
 #include <gatery/hlim/supportNodes/Node_External.h>
 #include <gatery/hlim/coreNodes/Node_Signal2Clk.h>
 #include <gatery/hlim/coreNodes/Node_Signal2Rst.h>
+#include <gatery/hlim/coreNodes/Node_Register.h>
+#include <gatery/hlim/coreNodes/Node_Pin.h>
 #include "common.h"
 #include <iostream>
 #include <set>
@@ -58,7 +60,14 @@ static std::string clkStr(const hlim::Clock *k, const std::map<const hlim::Clock
 	return std::to_string(clkIdx.at(k));
 }
 
-static void dumpGraph(const char *tag, hlim::Circuit &c)
+// what the generator REQUESTED from the frontend (not read back from the library): the physical-source class of every clock it created
+// and the clock(s) it asked for at every register, pin, crossing marker and memory port it created
+struct Requests {
+	std::map<const hlim::Clock*, int> gps;
+	std::vector<std::pair<const hlim::BaseNode*, std::vector<const hlim::Clock*>>> nodes;
+};
+
+static void dumpGraph(const char *tag, hlim::Circuit &c, const Requests *req = nullptr)
 {
 	std::map<const hlim::Clock*, size_t> clkIdx;
 	o << "graph " << tag << '\n';
@@ -146,6 +155,15 @@ static void dumpGraph(const char *tag, hlim::Circuit &c)
 		for (auto f : flagged) o << ' ' << f;
 	} catch (...) { o << " e"; }
 	o << '\n';
+	if (req) {
+		for (auto &g : req->gps) if (clkIdx.count(g.first)) o << "gps " << clkIdx.at(g.first) << ' ' << g.second << '\n';
+		for (auto &r : req->nodes) {
+			if (!nodeIdx.count(r.first)) continue;
+			o << "req " << nodeIdx.at(r.first);
+			for (auto *k : r.second) o << ' ' << clkStr(k, clkIdx);
+			o << '\n';
+		}
+	}
 	o << "endgraph\n";
 }
 
@@ -155,7 +173,11 @@ static void dumpGraph(const char *tag, hlim::Circuit &c)
 
 static const int UNK = -1; // label of a clocked source whose clock slot is empty
 
-struct GClock { Clock clk; int ps; bool phaseSync = true; /* DerivedClock copies the parent's flag */ };
+// `ps`: physical clock source as REQUESTED (a derived clock keeps its parent's source unless it was given another name, a frequency
+// multiplier != 1 or phaseSynchronousWithParent = false).  `libPhaseFlag`: the flag hlim::DerivedClock copies from the parent clock
+// (hlim/Clock.cpp:252) - the library treats a child of a non-phase-synchronous clock as another pin even if nothing but a register
+// attribute was changed; the random generator stays away from that shape (see `c12 quirk` and checks/c12.py, assumptions).
+struct GClock { Clock clk; int ps; bool phaseSync = true; };
 
 struct GSig {
 	UInt sig;
@@ -196,6 +218,31 @@ struct Gen {
 	std::vector<std::unique_ptr<GroupScope>> scopes;
 
 	explicit Gen(Rng &r) : rng(r) {}
+
+	// ---- record of what was requested from the frontend ---------------------------------------------------------------
+	Requests req;
+	const hlim::Clock *hclk(size_t c) const { return clocks[c].clk.getClk(); }
+	void noteClock(const Clock &k, int ps) { req.gps[k.getClk()] = ps; }
+	// the node that produces a signal handed back by the frontend (behind the signal nodes; for memory reads also behind the unpacking rewire)
+	template<class S> static hlim::BaseNode *producer(const S &sig) {
+		hlim::BaseNode *n = sig.readPort().node;
+		for (int t = 0; t < 6 && n; t++) {
+			if (dynamic_cast<hlim::Node_Register*>(n) || dynamic_cast<hlim::Node_CDC*>(n) || dynamic_cast<hlim::Node_MemPort*>(n) || dynamic_cast<hlim::Node_Pin*>(n)) return n;
+			if (n->getNumInputPorts() == 0) return nullptr;
+			n = n->getNonSignalDriver(0).node;
+		}
+		return nullptr;
+	}
+	template<class N, class S> void note(const S &sig, std::vector<const hlim::Clock*> ks) {
+		hlim::BaseNode *n = producer(sig);
+		if (dynamic_cast<N*>(n)) req.nodes.push_back({ n, std::move(ks) }); else hist["req.unlocated"]++;
+	}
+	template<class S> S R(const S &r, size_t c) { note<hlim::Node_Register>(r, { hclk(c) }); return r; }                       // register on clock c
+	template<class S> S M(const S &r, size_t src, size_t dst) { note<hlim::Node_CDC>(r, { hclk(src), hclk(dst) }); return r; }  // marker src -> dst
+	UInt MR(const UInt &r, size_t c) { note<hlim::Node_MemPort>(r, { hclk(c) }); return r; }                                    // memory read port
+	void MW(hlim::Node_MemPort *port, size_t c) { req.nodes.push_back({ port, { hclk(c) } }); }                                // memory write port
+	void P(hlim::Node_Pin *pin, const hlim::Clock *k) { req.nodes.push_back({ pin, { k } }); }
+	const hlim::Clock *defaultClk = nullptr;
 
 	static bool compat(int a, int b) { return a != UNK && b != UNK && a == b; }
 
@@ -256,7 +303,8 @@ struct Gen {
 	}
 	GSig &newInput(size_t c) {
 		ClockScope cs(clocks[c].clk);
-		GSig &s = add(pinIn(4_b), { clocks[c].ps }); hist["pinIn"]++;
+		auto pin = pinIn(4_b); P(pin.node(), hclk(c));
+		GSig &s = add(pin, { clocks[c].ps }); hist["pinIn"]++;
 		s.used = true;
 		return s;
 	}
@@ -272,19 +320,28 @@ struct Gen {
 		return c[rng.below(c.size())];
 	}
 
-	// `samePin`: name and frequency are those of the parent. The pin is shared only if, in addition, the derived clock is phase
-	// synchronous with its parent - a flag DerivedClock's constructor copies from the parent (hlim/Clock.cpp:243-256).
+	// `samePin`: only register attributes / reset name are changed, or a frequency multiplier of 1 is given: same physical clock.
 	void addDerived(size_t parent, const ClockConfig &cfg, bool samePin) {
-		bool share = samePin && clocks[parent].phaseSync;
-		GClock c{ clocks[parent].clk.deriveClock(cfg), share ? clocks[parent].ps : nextPs++, clocks[parent].phaseSync };
+		GClock c{ clocks[parent].clk.deriveClock(cfg), samePin ? clocks[parent].ps : nextPs++, clocks[parent].phaseSync };
 		clocks.push_back(c);
-		if (samePin) hist[share ? "clk.derived.samepin" : "clk.derived.samename.otherpin"]++;
+		noteClock(c.clk, c.ps);
+		if (samePin) hist[clocks[parent].phaseSync ? "clk.derived.samepin" : "clk.derived.samepin.of.unsynchronised"]++;
+	}
+	// parent for a same-pin derivation: not a clock that carries the library's inherited "not phase synchronous" flag
+	size_t pickSyncParent() {
+		for (int t = 0; t < 20; t++) { size_t c = pickClock(); if (clocks[c].phaseSync) return c; }
+		return 0;
 	}
 
-	void makeClocks() {
+	void makeClocksBase() {
 		// DesignScope keeps a default clock ("GateryDefaultClock") in scope: pins created outside any user ClockScope belong to it
 		defaultPs = nextPs;
 		clocks.push_back({ ClockScope::getClk(), nextPs++ });
+		defaultClk = clocks.back().clk.getClk();
+		noteClock(clocks.back().clk, clocks.back().ps);
+	}
+	void makeClocks() {
+		makeClocksBase();
 		size_t nroot = 1 + rng.below(3);
 		for (size_t i = 0; i < nroot; i++) {
 			ClockConfig cfg;
@@ -292,6 +349,7 @@ struct Gen {
 			if (rng.chance(2, 3)) cfg.name = "clk" + std::to_string(rng.below(3)); // same names/frequencies on purpose: still distinct pins
 			if (rng.chance(1, 4)) cfg.resetType = Clock::ResetType::ASYNCHRONOUS;
 			clocks.push_back({ Clock(cfg), nextPs++ });
+			noteClock(clocks.back().clk, clocks.back().ps);
 			hist["clk.root"]++;
 		}
 		size_t nder = rng.below(4);
@@ -300,9 +358,11 @@ struct Gen {
 			ClockConfig cfg;
 			switch (rng.below(7)) {
 				case 0: case 1: // only register attributes differ: same pin
+					parent = pickSyncParent();
 					cfg.resetType = rng.chance(1, 2) ? Clock::ResetType::SYNCHRONOUS : Clock::ResetType::ASYNCHRONOUS;
 					addDerived(parent, cfg, true); break;
 				case 2: // trigger/reset name differ: same pin
+					parent = pickSyncParent();
 					cfg.resetName = "rst" + std::to_string(i);
 					cfg.synchronizationRegister = true;
 					addDerived(parent, cfg, true); break;
@@ -316,6 +376,7 @@ struct Gen {
 					cfg.phaseSynchronousWithParent = false;
 					addDerived(parent, cfg, false); clocks.back().phaseSync = false; hist["clk.derived.phase"]++; break;
 				default: { // frequency multiplier 1/1 given explicitly: same pin
+					parent = pickSyncParent();
 					cfg.frequencyMultiplier = hlim::ClockRational{ 1, 1 };
 					addDerived(parent, cfg, true); break;
 				}
@@ -325,15 +386,17 @@ struct Gen {
 
 	void stInput() {
 		if (multiDomain && rng.chance(1, 15)) { // pin outside any user ClockScope: default clock
-			add(pinIn(4_b), { defaultPs }); hist["pinIn.defaultclock"]++;
+			auto pin = pinIn(4_b); P(pin.node(), defaultClk);
+			add(pin, { defaultPs }); hist["pinIn.defaultclock"]++;
 		} else if (multiDomain && rng.chance(1, 15)) { // pin whose clock slot is emptied through the hlim API: UNKNOWN domain
 			auto pin = pinIn(4_b);
-			pin.node()->setClockDomain(nullptr);
+			pin.node()->setClockDomain(nullptr); P(pin.node(), nullptr);
 			add(pin, { UNK }); hist["pinIn.noclock"]++;
 		} else {
 			size_t c = pickClock();
 			ClockScope cs(clocks[c].clk);
-			add(pinIn(4_b), { clocks[c].ps }); hist["pinIn"]++;
+			auto pin = pinIn(4_b); P(pin.node(), hclk(c));
+			add(pin, { clocks[c].ps }); hist["pinIn"]++;
 		}
 	}
 
@@ -393,6 +456,7 @@ struct Gen {
 		UInt r;
 		if (rng.chance(1, 2)) { ClockScope cs(clocks[c].clk); r = rng.chance(1, 2) ? reg(a.sig) : reg(a.sig, 0); }
 		else r = reg(a.sig, RegisterSettings{ .clock = clocks[c].clk });
+		R(r, c);
 		add(r, { clocks[c].ps }); hist["reg"]++;
 	}
 
@@ -404,7 +468,7 @@ struct Gen {
 		UInt r;
 		{
 			ClockScope cs(clocks[c].clk);
-			ENIF(e.sig.lsb()) r = reg(a.sig);
+			ENIF(e.sig.lsb()) r = R(reg(a.sig), c);
 		}
 		add(r, { clocks[c].ps }); hist["reg.enable"]++;
 	}
@@ -431,16 +495,17 @@ struct Gen {
 			size_t src = domainOf(a) >= 0 ? pickClockOfPs(domainOf(a)) : pickClock();
 			size_t dstDecl = pickClockOfPs(clocks[dst].ps);
 			meet({ &a.labels }, clocks[src].ps);
-			if (rng.chance(1, 4)) {
+			if (clocks[dstDecl].phaseSync && rng.chance(1, 4)) {
 				scl::SynchronizeParams p; p.outStages = 2; p.inStage = rng.chance(1, 2);
+				size_t nclk = DesignScope::get()->getCircuit().getClocks().size();
 				UInt r = scl::synchronize(a.sig, clocks[src].clk, clocks[dstDecl].clk, p);
-				// synchronize() puts its registers on a clock derived from the destination clock (same name/frequency): same pin iff phase synchronous
-				int regPs = clocks[dstDecl].phaseSync ? clocks[dstDecl].ps : nextPs++;
-				std::set<int> ml{ clocks[dstDecl].ps };
-				meet({ &ml }, regPs);
+				// synchronize() puts its registers on a clock it derives from the destination clock, changing only a register attribute: same physical clock
+				int regPs = clocks[dstDecl].ps;
+				auto &all = DesignScope::get()->getCircuit().getClocks();
+				for (size_t i = nclk; i < all.size(); i++) req.gps[all[i].get()] = regPs;
 				add(r, { regPs }); hist["cross.synchronize"]++;
 			} else {
-				UInt r = allowClockDomainCrossing(a.sig, clocks[src].clk, clocks[dstDecl].clk);
+				UInt r = M(allowClockDomainCrossing(a.sig, clocks[src].clk, clocks[dstDecl].clk), src, dstDecl);
 				GSig &m = add(r, { clocks[dstDecl].ps });
 				// consume it in the destination domain right away
 				hist["cross.marked"]++;
@@ -450,14 +515,14 @@ struct Gen {
 			// marker with arbitrary (often wrong) declared clocks
 			size_t src = pickClock(), dstDecl = pickClock();
 			meet({ &a.labels }, clocks[src].ps);
-			UInt r = allowClockDomainCrossing(a.sig, clocks[src].clk, clocks[dstDecl].clk);
+			UInt r = M(allowClockDomainCrossing(a.sig, clocks[src].clk, clocks[dstDecl].clk), src, dstDecl);
 			GSig &m = add(r, { clocks[dstDecl].ps });
 			hist["cross.marked.random"]++;
 			consumeUInt(m, dst, false);
 		} else {
 			meet({ &a.labels }, clocks[dst].ps);
 			ClockScope cs(clocks[dst].clk);
-			add(reg(a.sig), { clocks[dst].ps }); hist["cross.unmarked"]++;
+			add(R(reg(a.sig), dst), { clocks[dst].ps }); hist["cross.unmarked"]++;
 		}
 	}
 
@@ -594,15 +659,15 @@ struct Gen {
 			case 6: { // register enable
 				meet({ &a.labels, &c.labels }, D);
 				UInt r;
-				ENIF(c.sig) r = reg(a.sig);
+				ENIF(c.sig) r = R(reg(a.sig), dst);
 				add(r, { D }); hist["use.enable"]++; break;
 			}
 			case 7: { // write enable of a memory port
 				auto &m = newLocalMem();
 				meet({ &c.labels, &a.labels, &b.labels }, D);
-				IF(c.sig) m[a.sig] = b.sig;
+				IF(c.sig) MW(m[a.sig].write(b.sig), dst);
 				meet({ &x0.labels }, D);
-				UInt r = m[x0.sig];
+				UInt r = MR(m[x0.sig], dst);
 				add(r, x0.labels); hist["use.mem.enable"]++; break;
 			}
 			case 8: { // selector of an explicit multiplexer
@@ -615,11 +680,11 @@ struct Gen {
 				UInt r = cat(c.sig, a.sig.lower(3_b));
 				std::set<int> l = uni({ &c.labels, &a.labels });
 				meet({ &l }, D);
-				add(reg(r), { D }); hist["use.data"]++; break;
+				add(R(reg(r), dst), { D }); hist["use.data"]++; break;
 			}
 			case 10: { // registered flag, then condition (the plain synchroniser shape)
 				meet({ &c.labels }, D);
-				Bit f = reg(c.sig);
+				Bit f = R(reg(c.sig), dst);
 				std::set<int> fl{ D };
 				meet({ &fl, &x0.labels, &a.labels });
 				UInt x = x0.sig; IF(f) x = a.sig;
@@ -650,7 +715,7 @@ struct Gen {
 		if (!w) {
 			size_t src = pickClockOfPs(S), dstDecl = pickClockOfPs(clocks[dst].ps);
 			meet({ &s->labels }, clocks[src].ps);
-			c = &addBit(allowClockDomainCrossing(s->sig, clocks[src].clk, clocks[dstDecl].clk), { clocks[dstDecl].ps });
+			c = &addBit(M(allowClockDomainCrossing(s->sig, clocks[src].clk, clocks[dstDecl].clk), src, dstDecl), { clocks[dstDecl].ps });
 			hist["bitcross.marked"]++;
 			if (rng.chance(1, 4)) { // marker feeding another marker, optionally with logic in between
 				c = &decorate(*c, clocks[dst].ps, "between");
@@ -658,13 +723,13 @@ struct Gen {
 				size_t src2 = pickClockOfPs(clocks[dst].ps), dstDecl2 = pickClockOfPs(clocks[dst2].ps);
 				meet({ &c->labels }, clocks[src2].ps);
 				c->used = true;
-				c = &addBit(allowClockDomainCrossing(c->sig, clocks[src2].clk, clocks[dstDecl2].clk), { clocks[dstDecl2].ps });
+				c = &addBit(M(allowClockDomainCrossing(c->sig, clocks[src2].clk, clocks[dstDecl2].clk), src2, dstDecl2), { clocks[dstDecl2].ps });
 				dst = dst2; hist["bitcross.chain"]++;
 			}
 		} else if (how < 75) {
 			size_t src = pickClock(), dstDecl = pickClock();
 			meet({ &s->labels }, clocks[src].ps);
-			c = &addBit(allowClockDomainCrossing(s->sig, clocks[src].clk, clocks[dstDecl].clk), { clocks[dstDecl].ps });
+			c = &addBit(M(allowClockDomainCrossing(s->sig, clocks[src].clk, clocks[dstDecl].clk), src, dstDecl), { clocks[dstDecl].ps });
 			hist["bitcross.marked.random"]++;
 		} else hist["bitcross.unmarked"]++;
 		c = &decorate(*c, clocks[dst].ps, "after");
@@ -692,7 +757,7 @@ struct Gen {
 		switch (k) {
 			case 0: case 1: case 2: { // register (the usual case)
 				meet({ &m.labels }, D);
-				add(rng.chance(1, 2) ? reg(m.sig) : reg(m.sig, 0), { D }); hist["muse.reg"]++; break;
+				add(R(rng.chance(1, 2) ? reg(m.sig) : reg(m.sig, 0), dst), { D }); hist["muse.reg"]++; break;
 			}
 			case 3: { // data input of a multiplexer
 				GBit &c = pickBit(D);
@@ -708,17 +773,17 @@ struct Gen {
 			case 5: { // address of a read port, the memory being written in the destination domain
 				auto &mm = newLocalMem();
 				meet({ &x0.labels, &a.labels }, D);
-				mm[x0.sig] = a.sig;
+				MW(mm[x0.sig].write(a.sig), dst);
 				meet({ &m.labels }, D);
-				UInt r = mm[m.sig];
+				UInt r = MR(mm[m.sig], dst);
 				add(r, m.labels); hist["muse.mem.raddr"]++; break;
 			}
 			case 6: { // address or data of a write port
 				auto &mm = newLocalMem();
 				meet({ &m.labels, &a.labels }, D);
-				if (rng.chance(1, 2)) mm[m.sig] = a.sig; else mm[a.sig] = m.sig;
+				if (rng.chance(1, 2)) MW(mm[m.sig].write(a.sig), dst); else MW(mm[a.sig].write(m.sig), dst);
 				meet({ &x0.labels }, D);
-				UInt r = mm[x0.sig];
+				UInt r = MR(mm[x0.sig], dst);
 				add(r, x0.labels); hist["muse.mem.write"]++; break;
 			}
 			case 7: { // comparison, then condition
@@ -735,17 +800,17 @@ struct Gen {
 					default: r = m.sig.lower(2_b); r = zext(r, 4_b); break;
 				}
 				meet({ &m.labels }, D);
-				add(reg(r), { D }); hist["muse.noop.reg"]++; break;
+				add(R(reg(r), dst), { D }); hist["muse.noop.reg"]++; break;
 			}
 			case 9: { // marker feeding another marker
 				size_t dst2 = pickClock();
 				size_t src2 = pickClockOfPs(D), dstDecl2 = pickClockOfPs(clocks[dst2].ps);
 				meet({ &m.labels }, clocks[src2].ps);
-				GSig &m2 = add(allowClockDomainCrossing(m.sig, clocks[src2].clk, clocks[dstDecl2].clk), { clocks[dstDecl2].ps });
+				GSig &m2 = add(M(allowClockDomainCrossing(m.sig, clocks[src2].clk, clocks[dstDecl2].clk), src2, dstDecl2), { clocks[dstDecl2].ps });
 				m2.used = true;
 				meet({ &m2.labels }, clocks[dst2].ps);
 				ClockScope cs2(clocks[dst2].clk);
-				add(reg(m2.sig), { clocks[dst2].ps }); hist["muse.chain"]++; break;
+				add(R(reg(m2.sig), dst2), { clocks[dst2].ps }); hist["muse.chain"]++; break;
 			}
 			case 10: { // constant condition (folded by post-processing): only with a marker known to be right
 				Bit t = rng.chance(1, 2) ? '1' : '0';
@@ -753,12 +818,12 @@ struct Gen {
 				UInt x = x0.sig; IF(t) x = m.sig;
 				std::set<int> l = uni({ &x0.labels, &m.labels });
 				meet({ &l }, D);
-				add(reg(x), { D }); hist["muse.constcond"]++; break;
+				add(R(reg(x), dst), { D }); hist["muse.constcond"]++; break;
 			}
 			default: { // enable derived from the marker output
 				meet({ &a.labels, &m.labels }, D);
 				UInt r;
-				ENIF(m.sig.msb()) r = reg(a.sig);
+				ENIF(m.sig.msb()) r = R(reg(a.sig), dst);
 				add(r, { D }); hist["muse.enable"]++; break;
 			}
 		}
@@ -788,7 +853,7 @@ struct Gen {
 			meet({ &addr.labels, order ? &memOrderLabels : &none }, clocks[c].ps);
 			std::set<int> l = addr.labels; if (order) l.insert(memOrderLabels.begin(), memOrderLabels.end());
 			ClockScope cs(clocks[c].clk);
-			UInt r = (*mem)[addr.sig];
+			UInt r = MR((*mem)[addr.sig], c);
 			add(r, l);
 			memOrderLabels = l; hist["mem.read"]++;
 		} else { // write port: address, wrData, orderAfter
@@ -799,7 +864,7 @@ struct Gen {
 			meet({ &addr.labels, &data.labels, order ? &memOrderLabels : &none }, clocks[c].ps);
 			std::set<int> l = addr.labels; l.insert(data.labels.begin(), data.labels.end()); if (order) l.insert(memOrderLabels.begin(), memOrderLabels.end());
 			ClockScope cs(clocks[c].clk);
-			(*mem)[addr.sig] = data.sig;
+			MW((*mem)[addr.sig].write(data.sig), c);
 			memOrderLabels = l; hist["mem.write"]++;
 		}
 		memHasPort = true;
@@ -810,13 +875,14 @@ struct Gen {
 		if (hasUnk(a) && !wild()) { // the only legal consumer of an unknown-domain signal: a pin without clock
 			auto pin = pinOut(a.sig);
 			pin.setName("o" + std::to_string(nameCtr++));
-			pin.node()->setClockDomain(nullptr);
+			pin.node()->setClockDomain(nullptr); P(pin.node(), nullptr);
 			hist["pinOut.noclock"]++; return;
 		}
 		size_t c = pickClockFor(domainOf(a));
 		meet({ &a.labels }, clocks[c].ps);
 		ClockScope cs(clocks[c].clk);
-		pinOut(a.sig).setName("o" + std::to_string(nameCtr++)); hist["pinOut"]++;
+		auto pin = pinOut(a.sig); P(pin.node(), hclk(c));
+		pin.setName("o" + std::to_string(nameCtr++)); hist["pinOut"]++;
 	}
 
 	void stScope() {
@@ -828,6 +894,45 @@ struct Gen {
 		} else {
 			scopes.emplace_back(new GroupScope(GroupScope::GroupType::ENTITY, "ent" + std::to_string(nameCtr++))); hist["scope.entity"]++;
 		}
+	}
+
+	// The shape the random generator avoids: a clock derived from a non-phase-synchronous clock, changing only a register attribute.
+	// Read from the property text ("clocks that share the same physical clock source count as one domain") parent and child are one
+	// domain and both designs are clean; the library makes the child its own pin source and rejects them.
+	void buildQuirk(int which) {
+		makeClocksBase();
+		ClockConfig rc; rc.absoluteFrequency = hlim::ClockRational{ 100'000'000, 1 }; rc.name = "clkA";
+		clocks.push_back({ Clock(rc), nextPs++ }); noteClock(clocks.back().clk, clocks.back().ps);       // 1: A
+		ClockConfig bc; bc.phaseSynchronousWithParent = false;
+		addDerived(1, bc, false); clocks.back().phaseSync = false;                                        // 2: B, unrelated phase: another source
+		hist["quirk." + std::to_string(which)]++;
+		if (which == 0) {
+			ClockConfig cc; cc.resetType = Clock::ResetType::ASYNCHRONOUS;
+			addDerived(2, cc, true);                                                                      // 3: C = B with another reset type
+			GSig &x = newInput(2);
+			UInt r1, r2;
+			{ ClockScope cs(clocks[2].clk); r1 = R(reg(x.sig, 0), 2); }
+			meet({ &x.labels }, clocks[2].ps);
+			std::set<int> l{ clocks[2].ps };
+			meet({ &l }, clocks[3].ps);
+			{ ClockScope cs(clocks[3].clk); r2 = R(reg(r1 + 1, 0), 3); }
+			stPinOutOn(add(r2, { clocks[3].ps }), 3);
+		} else {
+			GSig &x = newInput(1);
+			scl::SynchronizeParams p; p.outStages = 2;
+			size_t nclk = DesignScope::get()->getCircuit().getClocks().size();
+			UInt r = scl::synchronize(x.sig, clocks[1].clk, clocks[2].clk, p);
+			auto &all = DesignScope::get()->getCircuit().getClocks();
+			for (size_t i = nclk; i < all.size(); i++) req.gps[all[i].get()] = clocks[2].ps;
+			stPinOutOn(add(r, { clocks[2].ps }), 2);
+		}
+	}
+	void stPinOutOn(GSig &a, size_t c) {
+		a.used = true;
+		meet({ &a.labels }, clocks[c].ps);
+		ClockScope cs(clocks[c].clk);
+		auto pin = pinOut(a.sig); P(pin.node(), hclk(c));
+		pin.setName("o" + std::to_string(nameCtr++));
 	}
 
 	void build(size_t nst, bool multi) {
@@ -872,7 +977,7 @@ struct Gen {
 			GSig &a = pickCompat(clocks[ph.clk].ps);
 			meet({ &a.labels }, clocks[ph.clk].ps);
 			ClockScope cs(clocks[ph.clk].clk);
-			ph.s->sig = reg(a.sig, 0);
+			ph.s->sig = R(reg(a.sig, 0), ph.clk);
 		}
 		while (!scopes.empty()) scopes.pop_back();
 		// nothing may be culled: every signal nobody reads goes to an output pin
@@ -884,7 +989,8 @@ struct Gen {
 			size_t c = d >= 0 ? pickClockOfPs(d) : pickClock();
 			meet({ &b->labels }, clocks[c].ps);
 			ClockScope cs(clocks[c].clk);
-			pinOut(b->sig).setName("ob" + std::to_string(nameCtr++)); hist["pinOut.bit"]++;
+			auto pin = pinOut(b->sig); P(pin.node(), hclk(c));
+			pin.setName("ob" + std::to_string(nameCtr++)); hist["pinOut.bit"]++;
 		}
 	}
 };
@@ -1047,7 +1153,11 @@ static void runCase(uint64_t id, Rng rng, size_t nstParam, int fixed = -1)
 	Gen gen(rng);
 	bool multi = !rng.chance(1, 10);
 	std::string buildErr;
-	try { if (fixed >= 0) { multi = true; gen.intent = buildFixed(fixed, gen.hist); } else gen.build(nst, multi); }
+	try {
+		if (fixed >= 100) { multi = true; gen.buildQuirk(fixed - 100); }
+		else if (fixed >= 0) { multi = true; gen.intent = buildFixed(fixed, gen.hist); }
+		else gen.build(nst, multi);
+	}
 	catch (const std::exception &e) { buildErr = e.what(); }
 	if (!buildErr.empty()) {
 		// the generator produced something the frontend refuses: not a CDC case
@@ -1058,7 +1168,7 @@ static void runCase(uint64_t id, Rng rng, size_t nstParam, int fixed = -1)
 	o << "gen multi=" << multi << " intent=" << gen.intent;
 	for (auto &h : gen.hist) o << ' ' << h.first << '=' << h.second;
 	o << '\n';
-	dumpGraph("pre", design.getCircuit());
+	dumpGraph("pre", design.getCircuit(), fixed >= 0 && fixed < 100 ? nullptr : &gen.req);
 	std::string verdict = "ok", msg;
 	try { design.postprocess(); }
 	catch (const gtry::utils::DesignError &e) {
@@ -1072,7 +1182,10 @@ static void runCase(uint64_t id, Rng rng, size_t nstParam, int fixed = -1)
 		std::replace(msg.begin(), msg.end(), '\n', ' ');
 		o << "errmsg " << msg.substr(0, 300) << '\n';
 	}
-	dumpGraph("post", design.getCircuit());
+	{
+		Requests onlyClocks; onlyClocks.gps = gen.req.gps;   // nodes are rebuilt by post-processing; the clocks stay
+		dumpGraph("post", design.getCircuit(), fixed >= 0 && fixed < 100 ? nullptr : &onlyClocks);
+	}
 	o << "end\n";
 }
 
@@ -1113,6 +1226,9 @@ int main(int argc, char **argv)
 	if (argc > 1 && std::string(argv[1]) == "fixed") {
 		o << "# prop=C12 fixed designs\n";
 		for (int k = 0; k < numFixed; k++) runCase(k, Rng(k), 0, k);
+	} else if (argc > 1 && std::string(argv[1]) == "quirk") {
+		o << "# prop=C12 derived clocks of a non-phase-synchronous clock\n";
+		for (int k = 0; k < 2; k++) runCase(k, Rng(k), 0, 100 + k);
 	} else if (replay) {
 		o << "# prop=C12 replay subseed=" << ncases << " statements=" << nst << "\n";
 		runCase(0, Rng(ncases), nst);
